@@ -1,11 +1,12 @@
 (* C11 — Loan lifecycle and interest.  Property theorems only.
    The model uses the exact elapsed/period ratio where the code goes through a binary float (C11_partial: the
    float path is validated on dyadic ratios only).  Proved over whole histories: the loan list changes only by a grant, a repayment or the
-   roll-back of a loan granted at the same instant, and closed loans never change again (LoanLife.v).  Also partial:
-   "largest first as far as funds allow" is checked by the monitor; here: the sort, and each closing operation. *)
+   roll-back of a loan granted at the same instant, and closed loans never change again (LoanLife.v).  "Largest first as
+   far as funds allow": the sort (LoanProofs.v) and the loop (RepayOrder.v: every candidate is repaid when its turn comes or
+   was refused for lack of funds at that moment); the monitor checks the sentence end to end. *)
 From Coq Require Import ZArith QArith List Sorting.Sorted Sorting.Permutation.
 From Basana Require Import Num.DecQ Num.DecQProofs Exchange.Model Exchange.AcctProofs Exchange.StepProofs
-     Exchange.OpProofs Exchange.LoanProofs Exchange.Prims Exchange.Structure Exchange.LoanLife Exchange.AutoRepayProofs.
+     Exchange.OpProofs Exchange.LoanProofs Exchange.Prims Exchange.Structure Exchange.LoanLife Exchange.AutoRepayProofs Exchange.RepayOrder.
 Import ListNotations.
 Open Scope Q_scope.
 
@@ -86,3 +87,22 @@ Theorem C11_autorepay_loop_never_aborts : forall c s o,
   RJ s -> stored s o -> check_infos c s (s_loans s) = Ok tt -> exists s' o', repay_loans c s o = Done s' o'.
 Proof. exact repay_loans_done. Qed.
 Print Assumptions C11_autorepay_loop_never_aborts.
+
+(* "largest first, as far as funds allow": the auto-repay loop visits its candidates in the order given (C11_autorepay_order_*:
+   a stable descending permutation of the open loans of the acquired symbol); it reports the loans it repaid, every one of
+   them a candidate, and every candidate it did not repay was refused for lack of funds, in the state the loop had reached,
+   when its turn came *)
+Theorem C11_auto_repay_as_far_as_funds_allow : forall c s ids s' repaid,
+  repay_each c s ids [] = Done s' repaid ->
+  (forall id, In id repaid -> In id ids) /\
+  (forall id, In id ids -> In id repaid \/ exists s0 s1, repay_loan c s0 id = Fail s1 ENotEnough).
+Proof. exact auto_repay_as_far_as_funds_allow. Qed.
+Print Assumptions C11_auto_repay_as_far_as_funds_allow.
+
+(* a repayment that goes through leaves the loan closed *)
+Theorem C11_repayment_closes_the_loan : forall c s id s' u,
+  repay_loan c s id = Done s' u -> (id < length (s_loans s))%nat ->
+  (forall i l, nth_error (s_loans s) i = Some l -> l_id l = i) ->
+  exists l', get_loan s' id = Some l' /\ l_open l' = false.
+Proof. exact repay_loan_closes. Qed.
+Print Assumptions C11_repayment_closes_the_loan.
